@@ -15,6 +15,7 @@ import json
 import math
 import random
 import re
+import zlib
 
 from vf.monitors import hpstub
 
@@ -52,7 +53,8 @@ ASSUMPTIONS = [
     "domain: limits leave at least one admissible quantizer per role; RNN limit entries have 4 values; pattern "
     "entries are complete; Bidirectional, GRU, Conv2DTranspose and Reshape are not generated (API drift in the "
     "pinned runtime / not executable)",
-    "size model: output_bits == ref_bits in the model scenarios (the statement does not separate them); per-layer "
+    "size model: output_bits differs from ref_bits in half of the scenarios; unquantized layers are held to ref_bits, "
+    "softmax / sigmoid outputs of Q layers and Activation layers may be sized at either width; per-layer "
     "entries of compute_model_size are recomputed for Dense/Conv1D/Conv2D/DepthwiseConv2D/Activation and their Q "
     "versions from the layer's own variables and quantizer objects",
     "delta domain: delta_p, delta_n > 0, rate > 1, sizes >= 1; the documented meaning of the parameters (delta_p % "
@@ -482,6 +484,10 @@ def _finish(scn, rnd, tier):
                                           {"default": ["parameters", "activations"]},
                                           {"default": ["parameters"], "QActivation": ["activations"],
                                            "Activation": ["activations"]}])}
+  # output_bits differs from ref_bits in half of the scenarios (derived from the scenario id after the draw, so that the
+  # random stream of the generator is left as it was).  Unquantized dense / convolution layers are sized at the reference
+  # width whatever their inline activation; softmax / sigmoid outputs of Q layers and Activation layers are
+  # sized at output_bits by the code, which the statement neither demands nor excludes (either is accepted)
   scn["activation_bits"] = rnd.choice([4, 4, 5])
   # one weight layer of the reference may be frozen (trainable = False survives model_quantize's JSON round trip)
   wl = [l["name"] for l in scn["model"]["layers"] if l["cls"] in ("Dense", "Conv2D", "Conv1D", "DepthwiseConv2D")]
@@ -510,6 +516,8 @@ def make_scenarios(tier, seed):
       if scn is None:
         raise RuntimeError("generator could not place scenario %s inside the domain" % sid)
       scn["sid"] = "%s#%d" % (sid, rep)
+      rb_ = scn["ff"]["ref_bits"]
+      scn["ff"]["output_bits"] = rb_ if zlib.crc32(scn["sid"].encode()) % 2 else {8: 16, 6: 8, 16: 8}[rb_]
       scn["predicted_leaves"] = predicted_leaves(scn)
       heavy = scn["model_name"] in COST
       scn["extra_random"] = (2 if heavy else 4) if tier == "quick" else (24 if heavy else 64)
@@ -745,7 +753,7 @@ def indep_sizes(layer, ffp):
   """(parameters, activations) of the documented size model for in-scope layers, else None."""
   import numpy as np
   c = type(layer).__name__
-  rb, ob = ffp["ref_bits"], ffp["ref_bits"]
+  rb, ob = ffp["ref_bits"], ffp.get("output_bits", ffp["ref_bits"])
   out_n = int(np.prod([int(x) for x in layer.output.shape[1:]]))
   if c in ("Dense", "Conv1D", "Conv2D", "DepthwiseConv2D"):
     par = sum(int(np.prod(w.shape)) * rb for w in layer.weights)
@@ -762,7 +770,7 @@ def indep_sizes(layer, ffp):
     if a is None or an == "linear":
       bits = 0
     elif an == "softmax":
-      bits = ob
+      return par, ob * out_n, rb * out_n
     elif hasattr(a, "bits"):
       bits = a.bits
     else:
@@ -770,7 +778,9 @@ def indep_sizes(layer, ffp):
     return par, bits * out_n
   if c == "Activation":
     an = act_name(layer.activation)
-    bits = 0 if an == "linear" else (ob if an in ("softmax", "sigmoid") else rb)
+    if an in ("softmax", "sigmoid"):
+      return 0, ob * out_n, rb * out_n
+    bits = 0 if an == "linear" else rb
     return 0, bits * out_n
   if c == "QActivation":
     q = layer.quantizer
@@ -799,7 +809,11 @@ def check_sizes(ctx, ff, ffp, model, tag):
     exp = indep_sizes(layer, ffp)
     if exp is None:
       continue
+    if len(exp) == 3:                       # an entry the statement leaves open between two widths
+      exp = (exp[0], exp[2] if int(got["activations"]) == int(exp[2]) else exp[1])
     ctx.count("hp.size_layers_checked")
+    if ffp.get("output_bits", ffp["ref_bits"]) != ffp["ref_bits"]:
+      ctx.count("hp.size_layers_checked_output_bits_differ")
     ctx.evals(3)
     for what, e, g in (("parameters", exp[0], got["parameters"]), ("activations", exp[1], got["activations"])):
       if int(g) != int(e):
@@ -946,7 +960,7 @@ def make_ff(scn):
   from qkeras.autoqkeras.forgiving_metrics import forgiving_factor
   f = scn["ff"]
   return forgiving_factor["bits"](delta_p=f["delta_p"], delta_n=f["delta_n"], rate=f["rate"], stress=1.0,
-                                  input_bits=f["input_bits"], output_bits=f["ref_bits"], ref_bits=f["ref_bits"],
+                                  input_bits=f["input_bits"], output_bits=f.get("output_bits", f["ref_bits"]), ref_bits=f["ref_bits"],
                                   config=copy.deepcopy(f["size_config"]))
 
 
@@ -1039,7 +1053,7 @@ def run_hp(case, ctx):
       for stress in (0.5, 2.0):
         okc, ffs = ctx.call({"part": "delta", "stage": "construct_stressed"}, lambda: forgiving_factor["bits"](
             delta_p=ffp["delta_p"], delta_n=ffp["delta_n"], rate=ffp["rate"], stress=stress, input_bits=ffp["input_bits"],
-            output_bits=ffp["ref_bits"], ref_bits=ffp["ref_bits"], config=copy.deepcopy(ffp["size_config"])))
+            output_bits=ffp.get("output_bits", ffp["ref_bits"]), ref_bits=ffp["ref_bits"], config=copy.deepcopy(ffp["size_config"])))
         if not okc:
           continue
         ok1, rs1 = ctx.call({"part": "size", "stage": "get_reference"}, ffs.get_reference, ref)
